@@ -77,14 +77,14 @@ theorem rounds_down (g : Globals) (hg : g.dialect = .mysql) (hio : g.ignoreOrder
     have hsc' : UpScope dbH p.2 := hsc.of_equiv heq
     have hscD' : DownScope dbH p.2 := hscD.of_equiv heq
     obtain ⟨d, out, hd, hU, ⟨db', he, hequ⟩, _⟩ := schema_spec_up g hg hio false h p.1 dbH p.2 hes hpe hpl hpp hex hpx
-      (fun tb htb => (hsc'.names tb htb).2) hsc'.nofk hsc'.both
+      (fun tb htb => (hsc'.names tb htb).2) hsc'.both
     obtain ⟨d2, outD, hd2, hD, ⟨db'', heD, hequD⟩, _⟩ := schema_spec_down g hg hio false h p.1 dbH p.2 hes hpe hpl hpp hex hpx
-      (fun tb htb => (hsc'.names tb htb).2) hsc'.nofk
+      (fun tb htb => (hsc'.names tb htb).2)
       (fun a ha b hb e => by
-        obtain ⟨x1, x2, x3, _⟩ := hsc'.both a ha b hb e
-        exact ⟨x1, x2, x3, hscD'.both a ha b hb e⟩)
+        obtain ⟨x1, x2, x3, _, x5⟩ := hsc'.both a ha b hb e
+        exact ⟨x1, x2, x3, hscD'.both a ha b hb e, x5⟩)
     have hvoc := schema_up_vocab g hg hio false h p.1 dbH p.2 hes hpe hpl hpp hex hpx
-      (fun tb htb => (hsc'.names tb htb).1) hsc'.nofk
+      (fun tb htb => (hsc'.names tb htb).1)
       (fun a ha b hb e => by obtain ⟨_, x2, x3, _⟩ := hsc'.both a ha b hb e; exact ⟨x2, x3⟩) d out hd hU
     have hup : modelUp g h p.1 = .ok out.flatten := by
       unfold modelUp
